@@ -162,6 +162,42 @@ def run(tier="quick", replay=None):
                         "auto: expanding a different inline's body is dominated by recording it in the visited set",
                         "replace_inline_body expands another inline function without first recording it as visited: mutually "
                         "recursive inline functions would expand forever", fn=path)
+    # the recursion guard cannot be bypassed: in the Call arm of replace_inline_body every non-error return comes
+    # after the inline-callable test (returning a call form unexpanded defers its inline calls to a later expansion
+    # that starts from a fresh visited set)
+    rib = prog.fn("compiler::inline::replace_inline_body")
+    if rib is not None:
+        gic = [bb for bb, t in rib.calls() if (callee_of(t) or "").endswith("inline::get_inline_callable")]
+        errb_r = set(err_assign_blocks(rib))
+        arm = None
+        for sb, blk in enumerate(rib.blocks):
+            tt = blk["t"]
+            if tt["k"] != "switch" or blk.get("cleanup") or len(tt["arms"]) < 3:
+                continue
+            for v, tgt in tt["arms"]:
+                others = [g for _, g in tt["arms"] if g != tgt] + ([tt["otherwise"]] if tt["otherwise"] != tgt else [])
+                region = rib.reachable(tgt, avoid=others)
+                uses_call = False
+                for b2 in region:
+                    for s2 in rib.blocks[b2]["s"]:
+                        for o in rv_operands(s2["rv"]):
+                            p = op_place(o)
+                            if p and any(isinstance(e, dict) and e.get("dc") == "Call" for e in p["p"]):
+                                uses_call = True
+                if uses_call and any(g in region for g in gic):
+                    arm = tgt
+        R.floor("R10.a", "inline-callable tests in replace_inline_body", len(gic), 1, rib.path)
+        if arm is None:
+            R.viol("R10.a", "R10.a|anchor-lost|call-arm", rib.path, "anchor lost: the BodyForm::Call arm of replace_inline_body", fn=rib.path)
+        else:
+            bypass = rib.reachable(arm, avoid=set(gic) | errb_r) & set(rib.return_blocks())
+            # blocks inside that set that actually assign the result
+            R.check(not bypass, "R10.a", "R10.a|compiler::inline::replace_inline_body|guard-not-bypassed", rib.loc(arm),
+                    "auto: every non-error return of the Call arm passes the inline-callable test (and with it the visited-set guard)",
+                    "replace_inline_body can return a call form without testing whether it calls an inline function: calls left "
+                    "inside are expanded later from a fresh visited set, so an inline cycle through such forms is never detected "
+                    "(the compiler recurses until the stack overflows)", fn=rib.path)
+
     # the set is seeded with the root inline
     seed_fn = None
     for f2, bb, t in prog.call_sites(lambda c: c == "compiler::inline::replace_inline_body"):
